@@ -167,9 +167,45 @@ def _thread_start(self, *a, **kw):
     return REAL['threading.Thread.start'](self, *a, **kw)
 
 
+class LazyExecutor:
+    """A pool created by the code under test *outside* a run (a class attribute or module global, created when ssh_audit is imported,
+    before the fork): whether it is a real pool or a simulated one is decided when it is first used.  Without this a pool kept in a
+    class attribute would start real threads inside a run (a harness error, never a verdict)."""
+
+    def __init__(self, a, kw):
+        self._a, self._kw, self._inner, self._world = a, kw, None, None
+
+    def _get(self):
+        if self._inner is None or self._world is not ACTIVE:
+            self._world = ACTIVE
+            self._inner = REAL['cf.ThreadPoolExecutor'](*self._a, **self._kw) if ACTIVE is None else _executor.SimThreadPoolExecutor(ACTIVE, *self._a, **self._kw)
+        return self._inner
+
+    def submit(self, fn, /, *args, **kwargs):
+        return self._get().submit(fn, *args, **kwargs)
+
+    def map(self, fn, *iterables, **kw):
+        return self._get().map(fn, *iterables, **kw)
+
+    def shutdown(self, wait=True, **kw):
+        if self._inner is not None:
+            return self._inner.shutdown(wait=wait, **kw)
+        return None
+
+    def __enter__(self):
+        return self
+
+    def __exit__(self, exc_type, exc, tb):
+        self.shutdown(wait=True)
+        return False
+
+
 class ExecutorDispatch:
     def __new__(cls, *a, **kw):
         if ACTIVE is None:
+            from . import sync as _sync
+            if _sync._from_tool(2):
+                return LazyExecutor(a, kw)
             return REAL['cf.ThreadPoolExecutor'](*a, **kw)
         return _executor.SimThreadPoolExecutor(ACTIVE, *a, **kw)
 
